@@ -69,7 +69,7 @@ def main():
     thms = []
     for f in mod.PROP_FILES:
         thms += [(f, *t) for t in common.theorems_in(f)]
-    ok_driver, dlog = common.lake_build(["N2k.Driver.Core"])
+    ok_driver, dlog = common.lake_build(common.DRIVER_TARGETS)
     ok_build, log = common.lake_build(mod.LEAN_TARGETS)
     if not ok_driver:
         ok_build, log = False, dlog + log
@@ -165,7 +165,7 @@ def main():
         if n_viol > 5:
             continue        # at most five VIOLATION lines per run; the rest are counted in the evidence file
         rp = {"property": prop, "key": v["key"], "what": v["what"], "tier": tier, "seed": seed, **v["replay"]}
-        path = common.VERIF / "replays" / f"{prop}-{common.short_hash(rp)}.json"
+        path = common.OUT / "replays" / f"{prop}-{common.short_hash(rp)}.json"
         common.write_json(path, rp)
         tail = "" if v["found_input"] else " no-failing-input-found"
         print(f"VIOLATION property={prop} replay={path}{tail}")
@@ -197,7 +197,7 @@ def main():
         "violations": n_viol,
         "notes": notes,
     }
-    common.write_json(common.VERIF / "evidence" / f"{prop}.json", ev)
+    common.write_json(common.OUT / "evidence" / f"{prop}.json", ev)
     print(f"{prop} tier={tier} seed={seed}: {discharged}/{obligations} obligations, "
           f"{ev['coverage']['evaluations']} correspondence cases, {n_viol} violations, {ev['wall_s']}s")
     return 1 if n_viol else 0
